@@ -60,3 +60,48 @@ fn vk_thread_fill_cpu_context_fpstate() {
     kani::assume(j < 64);
     assert!(f[160 + 4 * j..164 + 4 * j] == fs.xmm_space[j].to_le_bytes());
 }
+
+// ---------------------------------------------------------------------------
+// [C] ThreadInfoX86::create_impl (C04: "never given another thread's state"): every register set is read
+// from the thread `tid` itself — the general-purpose set, the floating-point set (through either request)
+// and each debug register — never from the process id. The ptrace requests are stubs that record the id
+// they were asked about; both the primary and the fallback request of each pair are covered.
+// ---------------------------------------------------------------------------
+static mut ASKED_OTHER: bool = false;
+static mut REGSET_FAILS: bool = false;
+static mut FPREGSET_FAILS: bool = false;
+const TID: Pid = 4242;
+const PID: Pid = 77;
+
+fn note(id: Pid) { if id != TID { unsafe { ASKED_OTHER = true; } } }
+fn zero_regs() -> user_regs_struct { unsafe { core::mem::zeroed() } }
+fn zero_fpregs() -> user_fpregs_struct { unsafe { core::mem::zeroed() } }
+
+fn g_ppid_tgid(tid: Pid) -> Result<(Pid, Pid)> { note(tid); Ok((1, PID)) }
+fn g_getregset(id: Pid) -> Result<user_regs_struct> {
+    note(id);
+    if unsafe { REGSET_FAILS } { Err(ThreadInfoError::IndexOutOfBounds(0, 0)) } else { Ok(zero_regs()) }
+}
+fn g_getregs(id: Pid) -> Result<user_regs_struct> { note(id); Ok(zero_regs()) }
+fn g_getfpregset(id: Pid) -> Result<user_fpregs_struct> {
+    note(id);
+    if unsafe { FPREGSET_FAILS } { Err(ThreadInfoError::IndexOutOfBounds(0, 0)) } else { Ok(zero_fpregs()) }
+}
+fn g_getfpregs(id: Pid) -> Result<user_fpregs_struct> { note(id); Ok(zero_fpregs()) }
+fn g_peek_user(id: Pid, _addr: ptrace::AddressType) -> nix::Result<libc::c_long> { note(id); Ok(0) }
+
+#[kani::proof]
+#[kani::stub(CommonThreadInfo::get_ppid_and_tgid, g_ppid_tgid)]
+#[kani::stub(ThreadInfoX86::getregset, g_getregset)]
+#[kani::stub(ThreadInfoX86::getregs, g_getregs)]
+#[kani::stub(ThreadInfoX86::getfpregset, g_getfpregset)]
+#[kani::stub(ThreadInfoX86::getfpregs, g_getfpregs)]
+#[kani::stub(ThreadInfoX86::peek_user, g_peek_user)]
+#[kani::unwind(10)]
+fn vk_thread_info_reads_the_thread_itself() {
+    unsafe { REGSET_FAILS = kani::any(); FPREGSET_FAILS = kani::any(); }
+    let r = ThreadInfoX86::create_impl(PID, TID);
+    assert!(r.is_ok());
+    unsafe { assert!(!ASKED_OTHER, "every ptrace request of create_impl(pid, tid) must name tid"); }   // [C04]
+    core::mem::forget(r);
+}
